@@ -138,12 +138,8 @@ func c07Callback(c *Ctx) {
 			c.R.Fail("R-C07-2", fn+":exit@"+pathShape(p), fn, c.pos(cb.Pos()), "ends in "+pathKind(p), "returns", "callback does not return")
 			continue
 		}
-		var sends []*ssa.Send
-		p.Instrs(func(in ssa.Instruction) {
-			if s, ok := in.(*ssa.Send); ok {
-				sends = append(sends, s)
-			}
-		})
+		sends := sendsOn(p)
+		stopped := stoppedBySelect(p)
 		failed, valid := false, false
 		var hcall *an.Expr
 		for _, a := range p.Atoms {
@@ -166,6 +162,11 @@ func c07Callback(c *Ctx) {
 		case failed:
 			c.R.Check(len(sends) == 0 && !exprIsNil(p.Results[0]), "R-C07-2", key, fn, c.pos(p.Ret.Pos()), fmt.Sprintf("%d send(s), returns %s", len(sends), p.Results[0]),
 				"a handler error is returned and nothing is requested", "handler failure swallowed")
+		case valid && stopped:
+			// the task is stopping: the request is abandoned
+			key += ",stopping"
+			c.R.Check(len(sends) == 0 && exprIsNil(p.Results[0]), "R-C07-2", key, fn, c.pos(p.Ret.Pos()), fmt.Sprintf("%d send(s), returns %s", len(sends), p.Results[0]),
+				"a request abandoned because ctx is done sends nothing and reports no error", "a stopping listener reports a spurious error")
 		case valid:
 			ok := len(sends) == 1
 			if ok {
